@@ -123,10 +123,10 @@ func (p *Path) Relation(upto int, isX, isY func(*Term) bool) (rel uint8, n int) 
 			continue
 		}
 		if isX(rf.X) && isY(rf.Y) {
-			rel &= rf.Rel
+			rel &= rf.Rel & unsignedVsZero(rf.X, rf.Y)
 			n++
 		} else if isX(rf.Y) && isY(rf.X) {
-			rel &= flipRel(rf.Rel)
+			rel &= flipRel(rf.Rel) & unsignedVsZero(rf.Y, rf.X)
 			n++
 		}
 	}
@@ -134,3 +134,15 @@ func (p *Path) Relation(upto int, isX, isY func(*Term) bool) (rel uint8, n int) 
 }
 
 func keyIs(k string) func(*Term) bool { return func(t *Term) bool { return t.Key() == k } }
+
+// unsignedVsZero: the relations an unsigned x can have with the constant 0 ({=,>});
+// rAny otherwise.  Makes `x != 0`, `x > 0` and `!(x <= 0)` the same fact for uint64.
+func unsignedVsZero(x, y *Term) uint8 {
+	if x != nil && y != nil && x.Typ != nil && isUnsigned(x.Typ) && y.IsConst() && y.Name == "0" {
+		return rEQ | rGT
+	}
+	if x != nil && y != nil && y.Typ != nil && isUnsigned(y.Typ) && x.IsConst() && x.Name == "0" {
+		return rEQ | rLT
+	}
+	return rAny
+}
